@@ -11,6 +11,9 @@ CHECKS={
  'C03':dict(technique='property-based testing: relational oracle (validate/safeParse/parse agreement, projection, idempotence, key-order, non-mutation) over generated validators (compiled and b.*) x generated values x 5 option sets',
    text='Exploration of the (validator, value, options) product with relations that need no reference model; evaluated inside Node where identity, prototypes and key order are visible.',
    note='Trusted: the worker\'s projection/equality helpers; zod() out of scope.', ref='DESIGN.md section 2 C03'),
+ 'C04':dict(technique='grammar-based and mutation-based fuzzing of whole projects through a subprocess compile worker with watchdog; oracle = totality invariants (no panic/abort/hang, code xor diagnostics, located diagnostics, module loads in Node and builds every requested parser)',
+   text='Exploration: tens of thousands of generated projects per run (whole-syntax grammar incl. unsupported forms, token/byte mutations and splices of the repository corpus, multi-file projects with missing/cyclic imports, semantic-operator stress, random settings). A crash or hang of the compiler is observed from outside the process, so stack overflows and infinite loops are verdicts, not harness failures.',
+   note='Trusted: wall-clock bound for termination (10 s, then 60 s alone), 16 MiB worker stack, the location rule (a diagnostic may lack a range only for a file that is missing or does not parse).', ref='DESIGN.md section 2 C04'),
  'C11':dict(technique='property-based testing: strict-mode verdicts of generated validators vs reference strict membership, with undeclared keys injected at random object positions',
    text='Exploration weighted to intersections/unions/nesting/records; oracle = reference "no undeclared key at any object position" + strict implies default.',
    note='Trusted: reference declared-key computation (intersection = union of members\' keys, union = matching branch, index signature admits all keys).', ref='DESIGN.md section 2 C11'),
